@@ -19,3 +19,10 @@ add(
     "Trusts vf/lang.py (oracle evaluates all values in the caller's environment first). Gaussian/Delta targets are covered by C12/C14 instead.",
     "DESIGN.md section 3 C04",
 )
+add(
+    "C05",
+    "property-based testing: generated nestings of binder constructors with adversarially coinciding names vs. a lexically scoped reference evaluator, plus the metamorphic relation 'rename every binder to a fresh name'",
+    "Bounded exploration: expressions nesting Reduce/Lambda/Independent/Cat/Integrate/Approximate/Subs binders over a 2-3 name pool, built under eager/lazy/reflect/normalize and reinterpreted; inputs must equal the lexical free names (no __BOUND name ever), values must equal the lexically scoped oracle everywhere, and renaming all binders must change nothing.",
+    "Trusts vf/lang.py (environment-extension semantics) and its alpha-renaming helper (cross-checked: oracle(renamed)==oracle(original) on every case through the value comparison). One open known finding (lazy Approximate) is excluded by construction.",
+    "DESIGN.md section 3 C05",
+)
